@@ -164,6 +164,33 @@ pub fn input_tuples(tier: Tier) -> Vec<InTuple> {
         t.p.cid = (0..n).map(|i| b'c'.wrapping_add(i as u8)).collect();
         out.push(t);
     }
+    // COINCIDING values: the same byte string in two (or all) slots - a password equal to the user name, an identity
+    // equal to the context ...: parameters are varied one at a time elsewhere, so coincidences never arise there
+    {
+        let v = b"alice@example.com".to_vec();
+        let slots = 5usize;
+        let mut sets: Vec<Vec<usize>> = vec![(0..slots).collect()];
+        for a in 0..slots {
+            for b in a + 1..slots {
+                sets.push(vec![a, b]);
+            }
+        }
+        for set in sets {
+            let mut t = d.clone();
+            t.devs = set.len();
+            t.boundary = true;
+            for slot in set {
+                match slot {
+                    0 => t.p.pw = v.clone(),
+                    1 => t.p.cid = v.clone(),
+                    2 => t.p.idu = Some(v.clone()),
+                    3 => t.p.ids = Some(v.clone()),
+                    _ => t.p.ctx = Some(v.clone()),
+                }
+            }
+            out.push(t);
+        }
+    }
     // many generators on the default input: a defect conditional on a random VALUE with probability ~1/256 per run (a
     // leading zero byte in a nonce, key share, blinded element or shared secret) needs the value to come up
     for tp in ntapes..(if tier.thorough() { 2048 } else { 256 }) {
